@@ -33,14 +33,16 @@ CLAIMS = {
          "property of each strategy + freshness of ids), for all histories.", "4 C03", L_NOTE,
          "Lean 4 theorem (frame/stability by induction) + correspondence"),
  "C13": ("Theorems C13_close_no_panic, C13_display_no_panic, C13_maxSize_no_panic: no strategy panic site, no Display clash, "
-         "no capacity overflow on any accepted history.", "4 C13", L_NOTE,
+         "no capacity overflow on any accepted history. C13_generate_no_panic (generate() itself does not panic, any fragment selection); C13_bodies_pass_move_and_mut_rules: every generated function body (constructors, unpack, drop, the four conversion forms) passes two more modelled compiler rules - bindings used only while in scope and not moved out (E0382/E0425), `data` stored into only when declared mut (E0596) - for every definition built from valid requests whose field names avoid the template bindings; the checker is also evaluated by the driver on every sampled module (chk=).", "4 C13", L_NOTE,
          "Lean 4 theorem (panic-freedom from invariants) + correspondence"),
  "C12": ("Theorems over the builder state machine for all histories: C12_membership (permutation of prev − removals + additions, "
          "native and generic strategies), C12_fresh_ids / C12_ids_monotone, C12_unique_names (invariant of every variant and of the "
          "pending view), C12_reject_unchanged_*, C12_dup_rejected, C12_remove_ok_iff, C12_build_pending, C12_noop_close.", "4 C12", L_NOTE,
          "Lean 4 theorem (state-machine invariants) + correspondence incl. invalid-request stream"),
  "C18": ("Theorems C18_records_answer (every accepted addition records exactly the numbers supplied by the resolver/override) and "
-         "C18_shape_preserved (a close changes nothing but offsets); C18_layout_factor: two histories that agree on the supplied sizes, alignments, "
+         "C18_shape_preserved (a close changes nothing but offsets); entry-point model Res.entryInfo (typed / allow-uninit / override / dynamic / copy) driven by the same "
+         "requests as the real entry points, with C18_entry_typed, _typed_uninit, _override (specified items verbatim, unspecified ones from the table), "
+         "_dynamic, _unregistered (a type missing from the table is refused), _copy, _recorded; C18_layout_factor: two histories that agree on the supplied sizes, alignments, "
          "removals and strategies (whatever the names, type names, uninit flags) yield the same variants and the same offset for every datum - every "
          "strategy commutes with erasing everything but size/alignment/offset (Proofs/LayoutFactor.lean). Decisive for the host-independence "
          "part is the tie: channel L drives typed/uninit/dynamic/override/copy entry points under synthetic resolvers whose answers "
